@@ -603,10 +603,22 @@ func (c *Client) negotiateVersion(ctx context.Context) error {
 		return fmt.Errorf("Unexpected response payload type %T", bi.ResponsePayload)
 	}
 	serverVersions := pl.ProtocolVersion
-	if len(serverVersions) == 0 {
+	// Adopt the highest version supported by both sides, whatever the order
+	// (or content) of the list returned by the server.
+	var best *kmip.ProtocolVersion
+	for i := range serverVersions {
+		v := &serverVersions[i]
+		if !slices.Contains(c.supportedVersions, *v) {
+			continue
+		}
+		if best == nil || ttlv.CompareVersions(*v, *best) > 0 {
+			best = v
+		}
+	}
+	if best == nil {
 		return errors.New("Protocol version negotiation failed. No common version found")
 	}
-	c.version = &serverVersions[0]
+	c.version = best
 	return nil
 }
 
